@@ -9,7 +9,7 @@ from typing import Any, Iterator
 from jinja2 import nodes
 
 from .. import tplq
-from ..astutil import ERROR_CLASSES, ERROR_ONLY_HELPERS, Locals, call_name, calls_in, error_names, names_in, norm, region, short, stmt_of, terminals, where
+from ..astutil import ERROR_CLASSES, ERROR_ONLY_HELPERS, Locals, call_name, calls_in, constructs_error, error_names, names_in, norm, region, short, stmt_of, terminals, where
 from ..cfg import CFG
 from ..core import PKG, Report
 from ..jinja_interp import expr_text
@@ -358,12 +358,75 @@ class _Region:
             if k == "assign":
                 out.append((g, v))
             elif re.fullmatch(r"assign\[\d+\]", k):
-                i = int(k[7:-1])
-                h = self.helper(v) if isinstance(v, ast.Call) else None
-                for f, t in [(g, v)] if h is None else [(h, r) for r in self.results(h)]:
-                    if isinstance(t, ast.Tuple) and i < len(t.elts) and not any(isinstance(x, ast.Starred) for x in t.elts):
-                        out.append((f, t.elts[i]))
+                out += self.component(g, v, int(k[7:-1])) or []
         return out + self.passed(g, name)
+
+    def record_class(self, c: ast.Call) -> list[str] | None:
+        """the fields, in their order, of the class of the package the call constructs (a NamedTuple / attrs / dataclass record: positional
+        arguments fill the fields in the order they are declared); None: the call is something else"""
+        hits = [k for k in self.ix.classes.values() if k.name == call_name(c).rsplit(".", 1)[-1]]
+        if len(hits) != 1 or not hits[0].fields or "__init__" in hits[0].methods:
+            return None
+        return list(hits[0].fields)
+
+    def component(self, g: Any, e: ast.AST, sel: Any, depth: int = 4) -> list[tuple[Any, ast.AST]] | None:
+        """(function, expression) of what the component `sel` (a position, or the name of a field) of the record e can be; None when e is
+        not known to be a record.  Records: a tuple display; the construction of a record class of the package (positional arguments by
+        the order of its fields, keywords by name); a conditional of records; what a helper of the region returns; a name bound to a
+        record - by assignment, as the argument of a helper, or as the variable of a loop over a generator of the region, which is what
+        the generator yields (an error object it yields instead has no components: whoever takes it apart has told them apart before).
+        Packing values into a record in one function and taking them out in another leaves who is who unchanged."""
+        if depth <= 0:
+            return None
+        if isinstance(e, ast.NamedExpr):
+            return self.component(g, e.value, sel, depth)
+        if isinstance(e, (ast.Tuple, ast.List)):
+            if isinstance(sel, int) and sel < len(e.elts) and not any(isinstance(x, ast.Starred) for x in e.elts):
+                return [(g, e.elts[sel])]
+            return None
+        if isinstance(e, ast.IfExp):
+            arms = [a for a in (self.component(g, x, sel, depth) for x in (e.body, e.orelse)) if a is not None]
+            return [x for a in arms for x in a] if arms else None
+        if isinstance(e, ast.Call):
+            h = self.helper(e)
+            if h is not None:
+                rs = [r for r in (self.component(h, x, sel, depth - 1) for x in self.results(h)) if r is not None]
+                return [x for r in rs for x in r] if rs else None
+            fields = self.record_class(e)
+            if fields is None or any(isinstance(a, ast.Starred) for a in e.args) or any(k.arg is None for k in e.keywords):
+                return None
+            name = fields[sel] if isinstance(sel, int) and sel < len(fields) else sel if isinstance(sel, str) and sel in fields else None
+            if name is None:
+                return None
+            kw = {k.arg: k.value for k in e.keywords}
+            if name in kw:
+                return [(g, kw[name])]
+            i = fields.index(name)
+            return [(g, e.args[i])] if i < len(e.args) else None
+        if isinstance(e, ast.Name):
+            key = ("component", g.qual, e.id, sel)
+            if key in self._active:
+                return None
+            self._active.add(key)
+            try:
+                got: list[tuple[Any, ast.AST]] = []
+                found = False
+                for h, v in self.bindings(g, e.id):
+                    r = self.component(h, v, sel, depth - 1)
+                    if r is not None:
+                        found, got = True, got + r
+                for pos, it in self.loops(g, e.id):
+                    gen = self.helper(it) if pos == "" and isinstance(it, ast.Call) else None
+                    for star, v in (self.yields(gen) if gen is not None else []):
+                        if star or constructs_error(v):
+                            continue
+                        r = self.component(gen, v, sel, depth - 1)
+                        if r is not None:
+                            found, got = True, got + r
+                return got if found else None
+            finally:
+                self._active.discard(key)
+        return None
 
     def passed(self, g: Any, name: str) -> list[tuple[Any, ast.AST]]:
         """(caller, expression) of what is passed for the parameter `name`: by the region to its helper g, by g to the function defined
@@ -1586,6 +1649,11 @@ def run(rep: Report, ctx: Any) -> str:
         return isinstance(e, ast.Attribute) and e.attr == "content"
 
     def is_document_key(g: Any, e: ast.AST) -> bool:
+        # (a key that travels in a record - a tuple, a NamedTuple / attrs object built by a helper or yielded by a generator of the region -
+        # is still the key: taken out by unpacking (see _Region.bindings), by field or by position)
+        if isinstance(e, ast.Attribute) or (isinstance(e, ast.Subscript) and isinstance(e.slice, ast.Constant) and isinstance(e.slice.value, int)):
+            got = brg.component(g, e.value, e.attr if isinstance(e, ast.Attribute) else e.slice.value)
+            return bool(got) and all(brg.denotes(h, v, is_document_key) for h, v in got)
         if not isinstance(e, ast.Name):
             return False
         for pos, it in brg.loops(g, e.id):
